@@ -609,6 +609,27 @@ def rule_end_of_input(ctx, cfg, r):
                         (term[1] == "Ne" and cv == 0 and v == 0) or (term[1] == "Lt" and cv == 1 and v == 1) or (term[1] == "Ge" and cv == 1 and v == 0)
                     if zero and (term[1] == "Gt" or is_bytes_left(term[2])):
                         exhausted = True
+            if not exhausted:
+                # decide on the paths instead (the call may sit in a closure handed to an Option combinator, or behind another spelling of the
+                # test): every path of the enclosing function that reaches end_of_input has found the iterator empty
+                owner = g
+                while owner.kind == "closure" and owner.parent in c.fns:
+                    owner = c.fns[owner.parent]
+                rows_o = paths.Evaluator(c, effects=ctx.effects(cfg), inline=["inflate::core::end_of_input"], max_paths=4000).run(owner)
+                hits = [x for x in rows_o if any(e[0] == "enter" and e[1].endswith("inflate::core::end_of_input") for e in x.effects)]
+
+                def row_exhausted(x):
+                    for a_, s_ in x.atoms:
+                        if a_[0] == "discr" and s_.single() == 0 and paths.term_contains(a_, lambda y: y[0] in ("call", "pure") and str(y[1]).endswith("read_byte")):
+                            return True
+                    for lhs, rel, rhs in rels(x):
+                        for p_, q_ in ((lhs, rhs), (rhs, lhs)):
+                            if p_[0] in ("pure", "call") and str(p_[1]).endswith("bytes_left") and is_const(q_):
+                                if (rel == "Eq" and const_val(q_) == 0) or (rel == "Le" and p_ is lhs and const_val(q_) == 0) or \
+                                        (rel == "Lt" and p_ is lhs and const_val(q_) == 1):
+                                    return True
+                    return False
+                exhausted = bool(hits) and all(row_exhausted(x) for x in hits)
             if exhausted:
                 r.ok(g.name, "eoi-site", "end_of_input reached only when the input iterator is exhausted", t.get("sp"))
             else:
@@ -1426,6 +1447,15 @@ def decoder_liveness(ctx, cfg):
             # final stores into l.* / r.* (locals are not in effects)
             deff = set(written)
             for k, v in x.store.items():
+                if isinstance(v, tuple) and v and v[0] == "agg" and str(v[1]).endswith("inflate::core::LocalVars") and isinstance(k, tuple) and k and k[0] == "local":
+                    # `l = LocalVars { .. }`: every field is assigned at once
+                    for name_, val_ in zip(v[3], v[4]):
+                        if name_ in F:
+                            deff.add(name_)
+                            for st in paths.subterms(val_) if isinstance(val_, tuple) else ():
+                                f = _field_of(st)
+                                if f in F:
+                                    use.add(f)
                 if isinstance(k, tuple) and k and k[0] == "fld" and k[3].endswith(("inflate::core::DecompressorOxide", "inflate::core::LocalVars")) and k[2] in F:
                     deff.add(k[2])
                     if isinstance(v, tuple):
@@ -1683,8 +1713,8 @@ def rule_counted_bytes(ctx, cfg, r, arm="ReadAdler32", limit=4, acc_field="z_adl
             if e[0] == "call" and e[1].endswith("inflate::core::read_bits"):
                 amt = e[2][1]
                 # the closure ran iff an 'enter' of a closure follows; counted below
-            if e[0] == "enter" and "{closure" in e[1]:
-                taken += 1
+            if e[0] == "enter" and "{closure" in e[1] and len(e[2]) > 0:
+                taken += 1          # a callback that receives the byte / bits read (closures without parameters carry no data)
             if e[0] == "call" and e[1].endswith("InputWrapper::advance"):
                 a = e[2][1]
                 if is_const(a):
